@@ -41,7 +41,38 @@ theorem C16_gen_shape :
     (∀ n ∈ Pyro.Gen.C16.hookSerializers, n ∈ ["serpent", "json", "msgpack"]) ∧
     "serpent" ∈ Pyro.Gen.C16.hookSerializers ∧ "json" ∈ Pyro.Gen.C16.hookSerializers := by decide
 
+/-- **C16_gen_order.** `Daemon.register` performs its steps in the order the model assumes — all checks,
+    then the attribute assignments (which may raise for objects that cannot carry attributes), then the
+    type-replacement hooks, and only then the table entry and the finalizer — so a registration that fails
+    has not touched the table (`C16_failed_register_unchanged`); and `default()` of the json and msgpack
+    serializers consults the type replacement *before* any builtin conversion, so a registered object whose
+    class derives from set / UUID / Decimal / datetime / array is proxied like any other (the model's
+    `returnObj` runs the hook first for every object and serializer). -/
+theorem C16_gen_order :
+    Pyro.Gen.C16.registerOrder = ["idcheck", "classcheck", "forcecheck", "attrs", "hooks", "insert", "finalize", "return"] ∧
+    (∀ p ∈ Pyro.Gen.C16.defaultHookFirst, p.2 = true) ∧
+    ("JsonSerializer", true) ∈ Pyro.Gen.C16.defaultHookFirst := by decide
+
 /-! ### the property -/
+
+/-- **C16_failed_register_unchanged.** In every state of every variant, for every object (also one that
+    cannot carry the pyro attributes), id argument and flags: a `register` that does not return a URI
+    (it raised) has changed nothing — the id it asked for is as free, or as taken by its holder, as before. -/
+theorem C16_failed_register_unchanged (cfg : Cfg) (s : State) (e : Ent) (ia : IdArg) (force weak : Bool)
+    (hfail : ∀ i, (step cfg s (.register e ia force weak)).2 ≠ .uri i) :
+    (step cfg s (.register e ia force weak)).1 = s := by
+  simp only [step] at hfail ⊢
+  rcases register_cases cfg s e ia force weak with ⟨r, _, h⟩ | ⟨_, h⟩
+  · rw [h]
+  · rw [h] at hfail
+    exact absurd rfl (hfail _)
+
+/-- an object whose class has no room for the attributes is refused with AttributeError whenever all
+    other checks pass — e.g. with `force=True` on an id held by another object, which keeps it -/
+example : regCheck .fixed (run .fixed init [.register (.obj 0) (.str (.name 0)) false false])
+    (.obj 6) (.str (.name 0)) true false = some (.err .attributeError) := by decide
+example : call (step .fixed (run .fixed init [.register (.obj 0) (.str (.name 0)) false false])
+    (.register (.obj 6) (.str (.name 0)) true false)).1 (.name 0) = .reached (.ent (.obj 0)) := by decide
 
 /-- **C16_refines (partial: no forced second id).** For every history, the daemon's table after it is
     exactly the specification's map after the same history: registrations, unregistrations (by id or by
@@ -85,7 +116,7 @@ theorem C16_double_refused (h : List Op) (hA : noAliasHist init h = true) (e : E
     exact ⟨rfl, fun i => regCheck_some_not_uri hc i⟩
   · exfalso
     apply regCheck_none_not_refuses rfl rfl hI hB hc
-    right; right; right; right
+    right; right; right; right; left
     exact ⟨rfl, hdup⟩
 
 /-- **C16_daemon_fixed.** For *every* history (forced aliasing included) of every variant of the code
